@@ -216,7 +216,6 @@ func (c *Ctx) thorough(pd *propDef) {
 			for _, o := range c2.obls {
 				if !o.OK {
 					bad++
-					o.Rule = o.Rule
 					o.Key = "tags=testing:" + o.Key
 					c.obls = append(c.obls, o)
 				}
